@@ -76,6 +76,8 @@ class Sched:
         def runner():
             self.by_ident[threading.get_ident()] = st
             st.sem.acquire()
+            if getattr(self, "tracer", None) is not None:
+                sys.settrace(self.tracer)
             try:
                 if self.aborting:
                     raise Abort()
@@ -450,6 +452,64 @@ class DLock:
 
     def __exit__(self, *a):
         self.release()
+
+
+class DRLock:
+    """threading.RLock replacement (owner + recursion count)"""
+
+    def __init__(self):
+        self._owner = None
+        self._count = 0
+
+    def _me(self):
+        s = cur()
+        return (s.me() if s else None) or threading.get_ident()
+
+    def acquire(self, blocking=True, timeout=-1):
+        s = cur()
+        me = self._me()
+        if s is not None:
+            s.yield_point(_label(self, "acquire"), (lambda: self._owner is None or self._owner is me or self._owner == me)
+                          if blocking else None)
+        if self._owner is not None and self._owner is not me and self._owner != me:
+            return False
+        self._owner = me
+        self._count += 1
+        return True
+
+    def release(self):
+        s = cur()
+        me = self._me()
+        if s is not None:
+            s.yield_point(_label(self, "release"))
+        if self._owner is None or (self._owner is not me and self._owner != me):
+            raise RuntimeError("cannot release un-acquired lock")
+        self._count -= 1
+        if self._count == 0:
+            self._owner = None
+
+    def __enter__(self):
+        self.acquire()
+        return self
+
+    def __exit__(self, *a):
+        self.release()
+
+
+def trace_opcodes(code_objects):
+    """a `sys.settrace` function for managed threads: every bytecode of the given code objects is a yield point"""
+    codes = set(code_objects)
+
+    def tracer(frame, event, arg):
+        if frame.f_code in codes:
+            frame.f_trace_opcodes = True
+            if event == "opcode":
+                s = cur()
+                if s is not None and s.me() is not None:
+                    s.yield_point("op")
+            return tracer
+        return None
+    return tracer
 
 
 class DTime:
